@@ -37,6 +37,7 @@
      goto a (t)   G(a) = (cns, S), t <= S                      (any T)
      exit a       a <= i64                                     (any T)
      (t)          t <= T
+     def f(D): T { t }   D distinct and well-formed, T well-formed, D |- t <= T;  f = main: T = i64
    Arguments  args <= D: same length; at a producer binding the argument is checked against its
    type; at a consumer binding the argument must be a covariable a with G(a) = (cns, that type).
    Annotation fields (ty/chi) of the parsed program are None; if present they must agree. *)
@@ -155,6 +156,12 @@ Definition cns_ty (G : env) (x : fname) : option fty :=
   match G x with Some (FCns, T') => Some T' | _ => None end.
 Definition ann_ok (a : option fty) (T : fty) : bool :=
   match a with None => true | Some t => fty_eqb t T end.
+
+(* the entry point: a definition named `main` returns i64 (its value is the exit code of the program;
+   rule added with fix <commit12> of /repo - before it the language left the type of main open and the
+   translation to Core was ill-typed for any other type, finding main-non-integer-result of C12) *)
+Definition main_ret_ok (d : fdef) : bool :=
+  if String.eqb (fdname d) "main" then fty_eqb (fdret d) FI64 else true.
 
 (* ---------- the judgement ---------- *)
 Section Typing.
@@ -276,9 +283,11 @@ Section Typing.
   Definition chk_args := chk_args_with chk.
   Definition chk_clauses := chk_clauses_with chk.
 
-  (* a definition: distinct parameters of well-formed types, well-formed result type, body *)
+  (* a definition: distinct parameters of well-formed types, well-formed result type, body; the
+     result of the entry point `main` is the exit code of the program, an integer *)
   Definition def_ok (d : fdef) : bool :=
-    nodup (map fbvar (fdctx d)) && forallb (fun b => wf_ty ts (fbty b)) (fdctx d)
+    main_ret_ok d
+    && nodup (map fbvar (fdctx d)) && forallb (fun b => wf_ty ts (fbty b)) (fdctx d)
     && wf_ty ts (fdret d) && chk (env_of_ctx env_empty (fdctx d)) (fdbody d) (fdret d).
 End Typing.
 
@@ -306,8 +315,8 @@ Definition has_type_b (p : fprog) : bool :=
 Definition has_type (p : fprog) : Prop := has_type_b p = true.
 
 (* ---------- classification of ill-formed declaration types (diagnostic only) ----------
-   The real checker looks only at the HEAD name of a type inside a data/codata declaration
-   (known finding C15-lazy-declaration-types).  [has_type_lax_b] is has_type_b with exactly that
+   Until fix <commit15> of /repo the real checker looked only at the HEAD name of a type inside a
+   data/codata declaration (former finding C15-lazy-declaration-types).  [has_type_lax_b] is has_type_b with exactly that
    weakening; [tty_defect] names the shape of the first defect of a declaration type. *)
 Definition head_ok (ts : list tdecl) (ps : list fname) (t : fty) : bool :=
   match t with
@@ -365,6 +374,6 @@ Definition ill_reason (p : fprog) : string :=
   else match find (fun d => negb (def_ok ts fs d)) fs with
        | Some d =>
            if nodup (map fbvar (fdctx d)) && forallb (fun b => wf_ty ts (fbty b)) (fdctx d) && wf_ty ts (fdret d)
-           then "def-body" else "def-signature"
+           then (if main_ret_ok d then "def-body" else "main-result-not-i64") else "def-signature"
        | None => "well-typed"
        end.
